@@ -12,6 +12,13 @@
 (*   panic # "" when AssignGroups panicked (no assignment was computed);   *)
 (*   sorted = [members, out, panic]: second call with the members listed   *)
 (*   in ascending id order (present when hasSorted).                       *)
+(* Lines with path = "leader" were not produced by a direct call: real     *)
+(* ConsumerGroups with those subscriptions formed a group against a fake   *)
+(* cluster holding `in.parts`, the member `leader` was elected and ran     *)
+(* ConsumerGroup.assignTopicPartitions; `in.members` is the listing of the *)
+(* leader's JoinGroup response and `out` what every member received in its *)
+(* SyncGroup response.  The clauses are the same: the partitions are those *)
+(* the cluster has, not those the leader chose to ask for.                 *)
 (***************************************************************************)
 EXTENDS GroupBalancers, Json, IOUtils
 
